@@ -3,7 +3,7 @@ from .. import poly
 from ..poly import Rat, key_equiv, key_str, mk_log
 from ..activity import gammas, ARMS, ACT, GPP
 from ..evaluator import analyse
-from ..procmodel import make_config, permeance_summary, process_functions, evaluate, PM, is_non_ideal
+from ..procmodel import split_models, make_config, permeance_summary, process_functions, evaluate, PM, is_non_ideal
 from ..sigma import Sigma, swap_ident
 from ..symeval import val_key
 from ..values import *
@@ -246,7 +246,7 @@ def check_processes(ck, repo, scope):
         if is_non_ideal(repo, func):
             continue
         ck.analysed_function(func)
-        models = [m for m in evaluate(repo, func, ck.tier, bases=("weight",)) if isinstance(m, PM)]
+        models = split_models(ck, 'R0', func, evaluate(repo, func, ck.tier, bases=("weight",)))
         ck.floor("evaluated paths of %s" % func.qualname, len(models), 3)
         ck.analysed["paths"] += len(models)
         for pm in models:
